@@ -83,6 +83,9 @@ class Canon(object):
         if isinstance(st, ast.If) and o.get('remove_debug') and is_debug_test(st.test):
             # what -O runs: the else branch
             return self.stmts(st.orelse, owner, cls) if st.orelse else []
+        if isinstance(st, ast.Expr) and o.get('constant_folding') and not isinstance(st.value, ast.Constant):
+            # folding runs after literal-statement removal in the pipeline; erasing must not depend on that order
+            st.value = self.expr(st.value)
         if is_literal_stmt(st):
             if self.placeholder and type(st.value.value) is int and st.value.value == 0:
                 return []
